@@ -174,7 +174,9 @@ def compare(p1, p2):
             bad.append('object-geometry')
         if not np.isclose(a['r'], b['r'], rtol=1e-8):
             bad.append('object-radius')
-        if not (np.isclose(a['tmin'], b['tmin'], rtol=1e-9) and np.isclose(a['tmax'], b['tmax'], rtol=1e-9)):
+        # (limits of a wire that ended up equally segmented -- tapering not requested or not possible -- describe nothing)
+        if (a['segtype'] or b['segtype']) and \
+                not (np.isclose(a['tmin'], b['tmin'], rtol=1e-9) and np.isclose(a['tmax'], b['tmax'], rtol=1e-9)):
             bad.append('object-taper-limits')
     if [s['idx'] for s in p1['srcs']] != [s['idx'] for s in p2['srcs']]:
         bad.append('source-pulses')
